@@ -32,6 +32,15 @@ func payloads() []payload {
 	return []payload{
 		{"1=1", "tautology", true, func() sqlgen.X { return sqlgen.Bin("=", sqlgen.Int("1"), sqlgen.Int("1")) }, security.PatternTautology, security.SeverityCritical},
 		{"'a'='a'", "tautology", true, func() sqlgen.X { return sqlgen.Bin("=", sqlgen.Str("a"), sqlgen.Str("a")) }, security.PatternTautology, security.SeverityCritical},
+		// other literals of the documented "same literal on both sides" rule (1=1, 2=2, 'a'='a', etc.): every kind of literal, the
+		// values a representation could confuse with "absent" (empty text, zero, blank) included
+		{"2=2", "tautology", true, func() sqlgen.X { return sqlgen.Bin("=", sqlgen.Int("2"), sqlgen.Int("2")) }, security.PatternTautology, security.SeverityCritical},
+		{"0=0", "tautology", true, func() sqlgen.X { return sqlgen.Bin("=", sqlgen.Int("0"), sqlgen.Int("0")) }, security.PatternTautology, security.SeverityCritical},
+		{"''=''", "tautology", true, func() sqlgen.X { return sqlgen.Bin("=", sqlgen.Str(""), sqlgen.Str("")) }, security.PatternTautology, security.SeverityCritical},
+		{"' '=' '", "tautology", true, func() sqlgen.X { return sqlgen.Bin("=", sqlgen.Str(" "), sqlgen.Str(" ")) }, security.PatternTautology, security.SeverityCritical},
+		{"'1'='1'", "tautology", true, func() sqlgen.X { return sqlgen.Bin("=", sqlgen.Str("1"), sqlgen.Str("1")) }, security.PatternTautology, security.SeverityCritical},
+		{"1.5=1.5", "tautology", true, func() sqlgen.X { return sqlgen.Bin("=", sqlgen.Float("1.5"), sqlgen.Float("1.5")) }, security.PatternTautology, security.SeverityCritical},
+		{"'admin'='admin'", "tautology", true, func() sqlgen.X { return sqlgen.Bin("=", sqlgen.Str("admin"), sqlgen.Str("admin")) }, security.PatternTautology, security.SeverityCritical},
 		{"c=c", "tautology", true, func() sqlgen.X { return sqlgen.Bin("=", sqlgen.Col("c5"), sqlgen.Col("c5")) }, security.PatternTautology, security.SeverityCritical},
 		{"x OR 1=1", "tautology", true, func() sqlgen.X {
 			return sqlgen.Bin("OR", sqlgen.Bin("=", sqlgen.Col("c5"), sqlgen.Int("7")), sqlgen.Bin("=", sqlgen.Int("1"), sqlgen.Int("1")))
